@@ -3,6 +3,7 @@ package props
 import (
 	"bytes"
 	"fmt"
+	"math/bits"
 	"sort"
 	"sync"
 
@@ -33,6 +34,8 @@ func (p predSpec) String() string {
 		return fmt.Sprintf("K%d-free", p.K)
 	case "maxedges":
 		return fmt.Sprintf("edges<=%d", p.K)
+	case "cokfree":
+		return fmt.Sprintf("independence<%d", p.K)
 	case "hfree":
 		return fmt.Sprintf("induced-%v-free", p.H)
 	case "and", "or":
@@ -56,6 +59,30 @@ func (p predSpec) holds(g *oracle.G) bool {
 		return oracle.CliqueNumber(g) < p.K
 	case "maxedges":
 		return g.M() <= p.K
+	case "cokfree": // no independent set of size K: dense graphs, parents of high minimum degree
+		non := make([]uint64, g.N) // non-neighbours with a larger index
+		for i := 0; i < g.N; i++ {
+			for j := i + 1; j < g.N; j++ {
+				if !g.A[i][j] {
+					non[i] |= 1 << uint(j)
+				}
+			}
+		}
+		var indep func(cand uint64, need int) bool
+		indep = func(cand uint64, need int) bool {
+			if need == 0 {
+				return true
+			}
+			for c := cand; c != 0; c &= c - 1 {
+				v := bits.TrailingZeros64(c)
+				if indep(cand&non[v], need-1) {
+					return true
+				}
+			}
+			return false
+		}
+		all := uint64(1)<<uint(g.N) - 1
+		return !indep(all, p.K)
 	case "forest":
 		return g.M() == g.N-len(oracle.Components(g))
 	case "bipartite":
@@ -127,7 +154,7 @@ func (p predSpec) holds(g *oracle.G) bool {
 }
 
 func genPredSpec(t *rapid.T, depth int) predSpec {
-	kinds := []string{"none", "maxdeg", "kfree", "maxedges", "hfree", "forest", "bipartite"}
+	kinds := []string{"none", "maxdeg", "kfree", "maxedges", "hfree", "forest", "bipartite", "cokfree"}
 	if depth == 0 {
 		kinds = append(kinds, "and", "or")
 	}
@@ -135,7 +162,7 @@ func genPredSpec(t *rapid.T, depth int) predSpec {
 	switch p.Kind {
 	case "maxdeg":
 		p.K = rapid.IntRange(0, 4).Draw(t, "d")
-	case "kfree":
+	case "kfree", "cokfree":
 		p.K = rapid.IntRange(2, 5).Draw(t, "r")
 	case "maxedges":
 		p.K = rapid.IntRange(0, 9).Draw(t, "c")
@@ -168,6 +195,65 @@ func classesOn(n int) ([]*oracle.G, []string) {
 	}
 	return classGraphs[n], classCache[n]
 }
+
+var (
+	satCacheMu sync.Mutex
+	satCache   = map[string][]*oracle.G{}
+)
+
+// classesSatisfying returns one representative of every class on n vertices with the hereditary property p.
+// n <= 8: the complete class list filtered. Larger n: every graph with p has a vertex-deleted subgraph with p, so the
+// classes on n vertices are among the one-vertex extensions of the classes on n-1 vertices; extend, filter, and
+// de-duplicate with the oracle canonical form (independent of the search under test).
+func classesSatisfying(n int, p predSpec) []*oracle.G {
+	key := fmt.Sprintf("%d|%v", n, p)
+	satCacheMu.Lock()
+	if r, ok := satCache[key]; ok {
+		satCacheMu.Unlock()
+		return r
+	}
+	satCacheMu.Unlock()
+	var out []*oracle.G
+	if n <= 8 {
+		reps, _ := classesOn(n)
+		for _, g := range reps {
+			if p.holds(g) {
+				out = append(out, g)
+			}
+		}
+	} else {
+		seen := map[string]bool{}
+		for _, par := range classesSatisfying(n-1, p) {
+			for mask := 0; mask < 1<<uint(n-1); mask++ {
+				g := par.Copy()
+				var nb []int
+				for v := 0; v < n-1; v++ {
+					if mask>>uint(v)&1 == 1 {
+						nb = append(nb, v)
+					}
+				}
+				g.AddVertex(nb)
+				if !p.holds(g) {
+					continue
+				}
+				k := oracle.Canon(g)
+				if !seen[k] {
+					seen[k] = true
+					out = append(out, g)
+				}
+			}
+		}
+	}
+	satCacheMu.Lock()
+	satCache[key] = out
+	satCacheMu.Unlock()
+	return out
+}
+
+// strongPreds prune hard enough for searches on 9..11 vertices to stay small.
+var strongPreds = []predSpec{{Kind: "forest"}, {Kind: "maxdeg", K: 2}, {Kind: "maxdeg", K: 3},
+	{Kind: "and", Sub: []predSpec{{Kind: "kfree", K: 3}, {Kind: "maxdeg", K: 3}}},
+	{Kind: "and", Sub: []predSpec{{Kind: "bipartite"}, {Kind: "maxdeg", K: 3}}}}
 
 type searchCfg struct {
 	N, M      int
@@ -228,16 +314,21 @@ func genSearchCfg(t *rapid.T, maxN int) searchCfg {
 	if c.Pred.Kind == "hfree" && c.N > 7 {
 		c.N = 7
 	}
+	if rapid.IntRange(0, 5).Draw(t, "bigpruned") == 0 {
+		// beyond the sizes where all classes can be listed: strong hereditary predicates on 9..10 (11) vertices
+		c.Pred = strongPreds[rapid.IntRange(0, sz(2, len(strongPreds)-1)).Draw(t, "strong")]
+		c.N = rapid.IntRange(9, sz(10, 11)).Draw(t, "bign")
+	}
 	return c
 }
 
 func checkSearchCfg(c searchCfg, rec *Rec) error {
-	reps, keys := classesOn(c.N)
+	reps := classesSatisfying(c.N, c.Pred)
+	keys := make([]string, len(reps))
 	want := map[string]bool{}
 	for i, g := range reps {
-		if c.Pred.holds(g) {
-			want[keys[i]] = true
-		}
+		keys[i] = oracle.Canon(g)
+		want[keys[i]] = true
 	}
 	got := map[string]int{} // key -> shard that produced it
 	total := 0
@@ -320,6 +411,24 @@ func enumSearchCfgs(yield func(searchCfg) bool) {
 			}
 		}
 	}
+	// larger n under strong pruning (oracle: extension of the predicate-satisfying classes)
+	for n := 9; n <= sz(10, 11); n++ {
+		for pi, p := range strongPreds {
+			if !Thorough && pi > 2 {
+				continue
+			}
+			for _, m := range []int{1, 3} {
+				idx++
+				if idx%NShards != Shard {
+					continue
+				}
+				pl := []string{"prune", "preprune", "split"}[(n+pi+m)%3]
+				if !yield(searchCfg{N: n, M: m, Pred: p, Placement: pl}) {
+					return
+				}
+			}
+		}
+	}
 	if Thorough && Shard == 0 {
 		yield(searchCfg{N: 9, M: 1, Pred: predSpec{Kind: "none"}, Placement: "prune"})
 	}
@@ -371,10 +480,21 @@ func referenceSequence(c searchCfg, a int) ([]string, error) {
 
 func genSaveLoadCase(t *rapid.T) saveLoadCase {
 	c := saveLoadCase{Cfg: genSearchCfg(t, sz(6, 7))}
+	big := rare(t, "bigcfg", uint64(sz(12, 6)))
+	if big {
+		// 9..10 vertices under a strong predicate: path counters and choice stacks beyond the small-n regime
+		preds := append(append([]predSpec{}, strongPreds...), predSpec{Kind: "bipartite"}, predSpec{Kind: "and", Sub: []predSpec{{Kind: "kfree", K: 3}, {Kind: "maxdeg", K: 4}}},
+			predSpec{Kind: "cokfree", K: 3}, predSpec{Kind: "cokfree", K: 3})
+		c.Cfg = searchCfg{N: rapid.IntRange(9, 10).Draw(t, "bign"), Pred: preds[rapid.IntRange(0, len(preds)-1).Draw(t, "bigpred")],
+			Placement: rapid.SampledFrom([]string{"prune", "preprune"}).Draw(t, "bigplace")}
+	}
 	c.Cfg.M = rapid.SampledFrom([]int{1, 1, 2, 3}).Draw(t, "m2")
 	c.A = rapid.IntRange(0, c.Cfg.M-1).Draw(t, "a")
 	iters, blobs := 1, 0
 	steps := rapid.IntRange(2, sz(12, 30)).Draw(t, "steps")
+	if big {
+		steps = rapid.IntRange(2, 7).Draw(t, "bigsteps")
+	}
 	for s := 0; s < steps; s++ {
 		kinds := []string{"next", "next", "save"}
 		if blobs > 0 && iters < 5 {
@@ -385,6 +505,9 @@ func genSaveLoadCase(t *rapid.T) saveLoadCase {
 		case "next":
 			op.I = rapid.IntRange(0, iters-1).Draw(t, "iter")
 			op.K = rapid.SampledFrom([]int{1, 1, 2, 3, 5, 10, 30, 50, 400, 2000}).Draw(t, "count")
+			if c.Cfg.N >= 9 {
+				op.K = rapid.SampledFrom([]int{1, 7, 50, 300, 1000, 2500, 9000}).Draw(t, "bigcount")
+			}
 		case "save":
 			op.I = rapid.IntRange(0, iters-1).Draw(t, "iter")
 			blobs++
@@ -521,8 +644,10 @@ func checkSaveLoadCase(c saveLoadCase, rec *Rec) error {
 }
 
 type saveEveryCase struct {
-	Cfg searchCfg
-	A   int
+	Cfg    searchCfg
+	A      int
+	Stride int // 0 or 1: every position; otherwise only positions k with k % Stride == Offset (large configurations are split)
+	Offset int
 }
 
 // checkSaveEveryPosition: save at EVERY position k of the run (before the first Next, after each graph, after exhaustion)
@@ -537,6 +662,16 @@ func checkSaveEveryPosition(c saveEveryCase, rec *Rec) error {
 	pre, post := c.Cfg.pruneFuncs(&bad)
 	orig := search.WithPruning(c.Cfg.N, c.A, c.Cfg.M, pre, post)
 	for k := 0; k <= len(ref)+1; k++ {
+		if c.Stride > 1 && k%c.Stride != c.Offset {
+			var ok bool
+			if p := try(func() { ok = orig.Next() }); p != nil {
+				return fmt.Errorf("%s: original panicked at %d: %v", desc, k, p)
+			}
+			if ok != (k < len(ref)) || (ok && graphString(orig.Value()) != ref[k]) {
+				return fmt.Errorf("%s: original diverges from the reference at position %d", desc, k)
+			}
+			continue
+		}
 		var buf bytes.Buffer
 		if p := try(func() { orig.Save(&buf) }); p != nil {
 			return fmt.Errorf("%s: Save at position %d panicked: %v", desc, k, p)
@@ -586,6 +721,20 @@ func checkSaveEveryPosition(c saveEveryCase, rec *Rec) error {
 func enumSaveEvery(yield func(saveEveryCase) bool) {
 	preds := []predSpec{{Kind: "none"}, {Kind: "kfree", K: 3}}
 	idx := 0
+	if Thorough {
+		// thousands of graphs on 10 vertices (path counters above 255, long choice stacks): every position, split in 32 slices
+		for _, p := range []predSpec{{Kind: "bipartite"}, {Kind: "cokfree", K: 3}} {
+			for off := 0; off < 32; off++ {
+				idx++
+				if idx%NShards != Shard {
+					continue
+				}
+				if !yield(saveEveryCase{Cfg: searchCfg{N: 10, M: 1, Pred: p, Placement: "prune"}, Stride: 32, Offset: off}) {
+					return
+				}
+			}
+		}
+	}
 	for n := 0; n <= sz(5, 6); n++ {
 		for m := 1; m <= 3; m++ {
 			for a := 0; a < m; a++ {
@@ -614,16 +763,16 @@ func sortedKeysOf(m map[string]bool) []string {
 
 func init() {
 	RegisterRapid("C03_search_generated",
-		"rapid: (n <= 7 quick / 8 thorough, split modulus m in {1,2,3,4,5,7,64}, hereditary predicate from a DSL: none, max degree <= d, K_r-free, <= c edges, induced-H-free for a generated H on 2..4 vertices, forest, bipartite, and/or of two; placed as prune, as preprune, or split over both). All m shards are run to exhaustion. Oracle: the oracle's own class list for n filtered by the predicate, keyed by the oracle canonical form. Every yielded value must be a well-formed DenseGraph on n vertices; the union over shards must contain no two isomorphic graphs, nothing that fails the predicate, and every class that satisfies it. The callbacks also check every graph they are shown. Non-trivial: n >= 4 and (m >= 2 or a real predicate).",
+		"rapid: (n <= 7 quick / 8 thorough - and in one case in six n = 9..10 (11) under a strong predicate (forest, max degree <= 2/3, triangle-free or bipartite with max degree <= 3), where the oracle classes come from the oracle's own extension of the predicate-satisfying classes -, split modulus m in {1,2,3,4,5,7,64}, hereditary predicate from a DSL: none, max degree <= d, K_r-free, <= c edges, induced-H-free for a generated H on 2..4 vertices, forest, bipartite, and/or of two; placed as prune, as preprune, or split over both). All m shards are run to exhaustion. Oracle: the oracle's own class list for n filtered by the predicate, keyed by the oracle canonical form. Every yielded value must be a well-formed DenseGraph on n vertices; the union over shards must contain no two isomorphic graphs, nothing that fails the predicate, and every class that satisfies it. The callbacks also check every graph they are shown. Non-trivial: n >= 4 and (m >= 2 or a real predicate).",
 		Budget{Checks: 400, Shards: 1}, Budget{Checks: 1200, Shards: 16},
 		func(t *rapid.T) searchCfg { return genSearchCfg(t, sz(7, 8)) }, checkSearchCfg)
 	RegisterEnum("C03_search_configurations",
-		"enumeration: every (n <= 6 quick / 8 thorough) x (m <= 3 / 4) x {none, maxdeg<=2, maxdeg<=3, triangle-free, K4-free, <=6 edges, forest, bipartite, triangle-free and maxdeg<=3, forest or <=4 edges} x {prune, preprune, split}; thorough adds All(9) and triangle-free n=9 m=3. Same checks as C03_search_generated.",
+		"enumeration: every (n <= 6 quick / 8 thorough) x (m <= 3 / 4) x {none, maxdeg<=2, maxdeg<=3, triangle-free, K4-free, <=6 edges, forest, bipartite, triangle-free and maxdeg<=3, forest or <=4 edges} x {prune, preprune, split}; plus n = 9..10 (thorough 11) under the strong predicates with m in {1,3}; thorough adds All(9) and triangle-free n=9 m=3. Same checks as C03_search_generated.",
 		true, Budget{Shards: 1}, Budget{Shards: 8}, enumSearchCfgs, checkSearchCfg)
 	RegisterRapid("C04_save_load_scripts",
-		"rapid: a search configuration (n <= 6/7, m <= 3, shard a, DSL predicate) and a script over up to 5 live iterators: Next x k (k up to 2000, so exhaustion is reached), Save(iterator) -> blob, Load(blob) -> new iterator, including chains save-load-advance-save. Oracle: the uninterrupted output sequence (graph, M, Degrees as text). Every Next of every iterator must return the reference graph at that iterator's position; at the end all iterators are drained round-robin to exactly the reference suffix, exhausted iterators stay exhausted, and every blob is loaded once more and must still resume correctly (so a blob shares nothing with live iterators). Non-trivial: a save strictly inside the run with n >= 4.",
-		Budget{Checks: 600, Shards: 1}, Budget{Checks: 8000, Shards: 16}, genSaveLoadCase, checkSaveLoadCase)
+		"rapid: a search configuration (n <= 6/7, m <= 3, shard a, DSL predicate; about one case in twelve (thorough: six) n = 9..10 under a strong predicate incl. bipartite, triangle-free with max degree <= 4 and independence number <= 2, i.e. thousands of graphs, path counters above 255) and a script over up to 5 live iterators: Next x k (k up to 2000, so exhaustion is reached), Save(iterator) -> blob, Load(blob) -> new iterator, including chains save-load-advance-save. Oracle: the uninterrupted output sequence (graph, M, Degrees as text). Every Next of every iterator must return the reference graph at that iterator's position; at the end all iterators are drained round-robin to exactly the reference suffix, exhausted iterators stay exhausted, and every blob is loaded once more and must still resume correctly (so a blob shares nothing with live iterators). Non-trivial: a save strictly inside the run with n >= 4.",
+		Budget{Checks: 600, Shards: 1}, Budget{Checks: 1500, Shards: 16}, genSaveLoadCase, checkSaveLoadCase)
 	RegisterEnum("C04_save_at_every_position",
-		"enumeration: for every (n <= 5 quick / 6 thorough, m <= 3, a < m, predicate none / triangle-free) Save is called at EVERY position k = 0..len(output)+1 (before the first Next, after each graph, after exhaustion); the loaded iterator must yield exactly the remaining graphs and the original must continue undisturbed. Complete over save positions for those configurations.",
+		"enumeration: for every (n <= 5 quick / 6 thorough, m <= 3, a < m, predicate none / triangle-free) Save is called at EVERY position k = 0..len(output)+1 (before the first Next, after each graph, after exhaustion); the loaded iterator must yield exactly the remaining graphs and the original must continue undisturbed. Thorough adds every position of the bipartite search and of the search for graphs without an independent set of size 3 on 10 vertices (5479 and 12172 graphs; the latter has 9-vertex parents of minimum degree >= 4, hence path counters above 255). Complete over save positions for those configurations.",
 		true, Budget{Shards: 1}, Budget{Shards: 8}, enumSaveEvery, checkSaveEveryPosition)
 }
